@@ -33,10 +33,18 @@ const MODES: &[(&str, &str)] = &[("legacy", "legacy"), ("json", "json"), ("logfm
 
 struct Witnesses {
     reported: std::collections::BTreeMap<String, usize>,
+    /// `--replay FILE`: only the case with this key is run
+    only: Option<String>,
 }
 
 impl Witnesses {
-    /// report a classed finding: the first few witnesses per class as `viol`, the rest only counted
+    fn skip(&self, key: &str) -> bool {
+        match &self.only {
+            Some(k) => k != key,
+            None => false,
+        }
+    }
+    /// report a classed finding: the first witnesses of a class in full, the rest compactly
     fn finding(&mut self, ctx: &mut Ctx, fam: &str, key: &str, class: &str, info: serde_json::Value) {
         let n = self.reported.entry(class.to_string()).or_insert(0);
         *n += 1;
@@ -45,8 +53,7 @@ impl Witnesses {
             i["class"] = json!(class);
             ctx.case(fam, key, "viol", i);
         } else {
-            ctx.case(fam, key, "pass", json!({"note": "further witness of an already reported class", "finding_class": class}));
-            ctx.count(&format!("witness:{}", class));
+            ctx.case(fam, key, "viol", json!({"class": class, "what": info["what"], "case": info["case"], "note": "further witness of the same class"}));
         }
     }
 }
@@ -108,7 +115,7 @@ fn check_sink_faults(ctx: &mut Ctx, w: &mut Witnesses) {
     // (name, query, aggregate?)
     let mut queries: Vec<(&str, &str, bool)> = vec![("record", "* | json", false), ("aggregate", "* | json | count by k", true)];
     let mut inputs: Vec<(String, Vec<Vec<u8>>)> = vec![("12".into(), input_lines(12))];
-    if ctx.thorough() {
+    if ctx.thorough() || w.only.is_some() {
         queries.extend_from_slice(&[
             ("record-filtered", "* | json | where n >= 3", false),
             ("record-fields", "* | json | fields k", false),
@@ -151,7 +158,8 @@ fn check_sink_faults(ctx: &mut Ctx, w: &mut Witnesses) {
                 ks.dedup();
                 for k in ks {
                     job += 1;
-                    if job % ctx.nshards != ctx.shard {
+                    let key = format!("{}:k={}", cname, k);
+                    if job % ctx.nshards != ctx.shard || w.skip(&key) {
                         continue;
                     }
                     let sink = Sink::failing_at(k);
@@ -167,7 +175,6 @@ fn check_sink_faults(ctx: &mut Ctx, w: &mut Witnesses) {
                     } else {
                         start(q, mode, BufReader::new(Cursor::new(all.clone())), sink.clone())
                     };
-                    let key = format!("{}:k={}", cname, k);
                     let info = json!({"combo": cname, "query": q, "mode": mode, "fault_offset": k, "output_len": f.len(), "lines": lines.len()});
                     let o = match run.wait(Duration::from_secs(30)) {
                         None => {
@@ -225,14 +232,14 @@ fn check_endless_inproc(ctx: &mut Ctx, w: &mut Witnesses) {
         ("keyword-never", "nosuchword", "logfmt", 0, false),
     ];
     for (j, (name, q, mode, k, ends)) in cases.iter().enumerate() {
-        if j % ctx.nshards != ctx.shard {
+        let key = format!("endless:{}", name);
+        if j % ctx.nshards != ctx.shard || w.skip(&key) {
             continue;
         }
         let gate = Gate::default();
         gate.endless(block.clone());
         let sink = Sink::failing_at(*k);
         let run = start(q, mode, gate.reader(), sink.clone());
-        let key = format!("endless:{}", name);
         let info = json!({"case": name, "query": q, "mode": mode, "fault_offset": k, "input": "endless (50-line block repeated)"});
         if *ends {
             let o = run.wait(CEILING);
@@ -285,7 +292,8 @@ fn check_read_faults(ctx: &mut Ctx, w: &mut Witnesses) {
         for j in 0..=lines.len() {
             for partial in [false, true] {
                 job += 1;
-                if job % ctx.nshards != ctx.shard {
+                let key = format!("read-error:{}:{}:line={}:partial={}", q, mode, j, partial);
+                if job % ctx.nshards != ctx.shard || w.skip(&key) {
                     continue;
                 }
                 let gate = Gate::default();
@@ -298,7 +306,6 @@ fn check_read_faults(ctx: &mut Ctx, w: &mut Witnesses) {
                 gate.fail();
                 let sink = Sink::default();
                 let run = start(q, mode, gate.reader(), sink.clone());
-                let key = format!("read-error:{}:{}:line={}:partial={}", q, mode, j, partial);
                 let info = json!({"query": q, "mode": mode, "error_at_line": j, "inside_a_line": partial});
                 let o = match run.wait(Duration::from_secs(30)) {
                     None => {
@@ -376,7 +383,7 @@ fn check_binary(ctx: &mut Ctx, w: &mut Witnesses) {
             }
         }
         ks.push(70000); // beyond one pipe buffer
-        if !ctx.thorough() {
+        if !ctx.thorough() && w.only.is_none() {
             ks = vec![0, *ks.get(2).unwrap_or(&1), *ks.get(3).unwrap_or(&2), 70000];
         }
         ks.sort();
@@ -413,7 +420,7 @@ fn check_binary(ctx: &mut Ctx, w: &mut Witnesses) {
 
     // endless-and-never-stopping jobs cost the full ceiling: spread them first
     jobs.sort_by_key(|j| if j.expect == "endless" { 0 } else { 1 });
-    let mine: Vec<Job> = jobs.into_iter().enumerate().filter(|(i, _)| i % ctx.nshards == ctx.shard).map(|p| p.1).collect();
+    let mine: Vec<Job> = jobs.into_iter().enumerate().filter(|(i, j)| i % ctx.nshards == ctx.shard && !w.skip(&format!("bin:{}", j.name))).map(|p| p.1).collect();
     if mine.is_empty() {
         let _ = std::fs::remove_dir_all(&dir);
         return;
@@ -501,7 +508,7 @@ fn check_binary(ctx: &mut Ctx, w: &mut Witnesses) {
 }
 
 pub fn check(ctx: &mut Ctx) {
-    let mut w = Witnesses { reported: Default::default() };
+    let mut w = Witnesses { reported: Default::default(), only: super::c15::replay_key(ctx) };
     check_binary(ctx, &mut w);
     check_sink_faults(ctx, &mut w);
     check_read_faults(ctx, &mut w);
